@@ -373,15 +373,33 @@ int main(int argc, char** argv) {
                     bad++;
                 }
             }
-            {   /* the longest phrase of the language (longest word everywhere; word 3 has an even index) round-trips as well */
+            {   /* the longest phrase of the list round-trips as well: the longest word at every data position (word 3 needs an
+                   even index: reserved feature bit), and the combination of the last data words - tried over the longest words,
+                   or over all 2048 values of the last one - that also makes the check word long */
                 unsigned wa = 0, we = 0; size_t la = 0, le = 0;
                 for (unsigned i = 0; i < 2048; ++i) { size_t n_ = strlen(l->words[i]); if (n_ > la) { la = n_; wa = i; } if (!(i & 1) && n_ > le) { le = n_; we = i; } }
-                unsigned c[16]; for (int i = 0; i < 16; ++i) c[i] = wa; c[2] = we;
+                unsigned M[64]; int nm = 0; for (unsigned i = 0; i < 2048 && nm < 64; ++i) if (strlen(l->words[i]) == la) M[nm++] = i;
+                unsigned best[16]; size_t bestlen = 0; for (int i = 0; i < 16; ++i) best[i] = wa; best[2] = we;
+                long combos = nm >= 2 ? (long)nm * nm * nm : 2048;
+                for (long k = 0; k < combos; ++k) {
+                    unsigned c[16]; for (int i = 0; i < 16; ++i) c[i] = wa; c[2] = we;
+                    if (nm >= 2) { c[13] = M[k % nm]; c[14] = M[(k / nm) % nm]; c[15] = M[(k / nm / nm) % nm]; } else c[15] = (unsigned)k;
+                    polyseed_data t; memset(&t, 0, sizeof t);
+                    for (unsigned j = 0; j < 19; ++j) t.secret[j] = spec_unpack_secret_byte(c, j);
+                    t.birthday = spec_unpack_extra(c) & 1023; t.features = spec_unpack_extra(c) >> 10;
+                    unsigned c0 = spec_check(&t);
+                    size_t tot = strlen(l->words[c0 & 2047]) + 15 * strlen(l->separator);
+                    for (int i = 1; i < 16; ++i) tot += strlen(l->words[c[i]]);
+                    if (tot > bestlen) { bestlen = tot; memcpy(best, c, sizeof c); }
+                }
                 polyseed_data s; memset(&s, 0, sizeof s);
-                for (unsigned j = 0; j < 19; ++j) s.secret[j] = spec_unpack_secret_byte(c, j);
-                s.birthday = spec_unpack_extra(c) & 1023; s.features = spec_unpack_extra(c) >> 10;
+                for (unsigned j = 0; j < 19; ++j) s.secret[j] = spec_unpack_secret_byte(best, j);
+                s.birthday = spec_unpack_extra(best) & 1023; s.features = spec_unpack_extra(best) >> 10;
                 s.checksum = spec_check(&s);
-                unsigned coin = (spec_word(&s, 0) ^ wa) & 2047;
+                unsigned coin = (spec_word(&s, 0) ^ best[1]) & 2047;   /* makes word 2 the chosen word as well */
+                unsigned saved_reserved = reserved_features;
+                reserved_features = 8;    /* all three user feature bits enabled, as polyseed_enable_features(7) leaves it: the
+                                             longest words may have odd indices, which set user feature bits */
                 if (spec_supported(s.features, reserved_features)) {
                     polyseed_str out; size_t n = polyseed_encode(&s, l, coin, out);
                     polyseed_data* back = NULL;
@@ -390,6 +408,7 @@ int main(int argc, char** argv) {
                     if (back) polyseed_free(back);
                     if (!okx) { if (!bad) snprintf(first, sizeof first, "the longest phrase of the list (%zu bytes) does not round-trip: status %d", strlen(out), st); bad++; }
                 }
+                reserved_features = saved_reserved;
             }
             printf("{\"name\": \"T.encode_words[%s]\", \"status\": \"%s\", \"evaluated\": 2048, \"detail\": \"", l->name_en, bad ? "fail" : "pass");
             if (bad) { for (const char* p = first; *p; ++p) { if (*p == '"' || *p == '\\') putchar('\\'); putchar(*p); } printf(" (%ld of 2048 words)", bad); allok = 0; }
